@@ -838,6 +838,25 @@ theorem C15_sample_once {Req Resp : Type} (w : World Req Resp) (source : Val) (s
       · rcases hpre with rfl | ⟨r, rfl⟩ <;>
           simp [List.countP_append, hcnt.2, isFailedSample, List.countP_cons]
 
+/-- **from the description through the provider to the wire** (composition decoder → `Provider.Run` → gun): for an
+accepted description, whatever the options `passes` / `limit` and the number `n` of ammo an instance takes, the ammo it is
+handed are the first `feedCount` deliveries of the ring (in proportion to the weights: `ringOK`), and shooting them one
+after the other appends, for each of them in order, a block of events the judge `shotVerdict` accepts for THAT
+scenario's step list — nothing else reaches the target or the aggregator. -/
+theorem C15_pool_shots {Req Resp : Type} (reqs : List Char → Option ReqDef) (scs : List ScenarioCfg)
+    (ring : List (Scenario ReqDef)) (hnd : (scs.map (·.name)).Nodup) (hw : ∀ sc ∈ scs, 0 ≤ sc.weight)
+    (hd : decodeAmmo reqs scs = .ok ring) (hne : ring.length ≠ 0) (passes limit n : Nat)
+    (w : World Req Resp) (nm : Req → String) (hnm : Named w nm) (source : Val) (g g' : GState Req)
+    (h : shootAll w source (feed ring passes limit n) g = some g') :
+    ringOK (scs.map (·.name)) (scs.map (·.weight)) ((feed ring passes limit n).map (·.name)) = true ∧
+    (feed ring passes limit n).length = feedCount ring.length passes limit n ∧
+    ∃ evss : List (List OEv), obsLog nm g'.log = obsLog nm g.log ++ evss.flatten ∧
+      evss.length = (feed ring passes limit n).length ∧
+      ∀ p ∈ (feed ring passes limit n).zip evss,
+        shotVerdict (String.ofList p.1.name) (p.1.steps.map (·.req.name)) p.2 = "ok" := by
+  obtain ⟨_, hlen, _, _, _, hok⟩ := C15_feed reqs scs ring hnd hw hd hne passes limit n
+  exact ⟨hok, hlen, shootAll_verdict w nm hnm source _ g g' h⟩
+
 /-- **`prepareRequest` as regenerated** (statement list with Go's `err` explicit, over arbitrary `http.NewRequest`,
 header canonicalisation and `net.SplitHostPort`) computes the direct reading `prepareRequest` of the model -/
 theorem C15_prepare_source (lib : PrepLib) (cfg : PrepCfg) (p : ReqParts) :
